@@ -124,3 +124,84 @@ func Chain(l *mon.Log, d int) Iter[int] {
 	}
 	return nil
 }
+
+// Each is ONE generic generator instantiated at many element types (interface types, pointers, funcs,
+// slices, maps, channels, arrays, structs): whatever the runtime keeps per element type must not be
+// shared between instantiations. It uses continue, break and the fall-off end.
+func Each[T any](l *mon.Log, xs []T) Iter[T] {
+	for i, x := range xs {
+		if i == 1 {
+			l.E(i)
+			continue
+		}
+		Yield(x)
+		l.E(10 + i)
+		if i == 3 {
+			break
+		}
+	}
+	if len(xs) > 5 {
+		return nil
+	}
+	l.E(99)
+	return nil
+}
+
+// Spawn* yield CHILD generators that capture the iteration variables of a range loop: every child owns the
+// variables of its iteration, so it must yield the same values whenever it is consumed (at once, after the
+// parent moved on, after the parent finished).
+func SpawnInt(l *mon.Log, n int) Iter[Iter[int]] {
+	for i := range n {
+		l.E(i)
+		Yield(func() Iter[int] {
+			for j := 0; j < 2; j++ {
+				Yield(i*10 + j)
+			}
+			return nil
+		}())
+	}
+	return nil
+}
+
+func SpawnSlice(l *mon.Log, xs []int) Iter[Iter[int]] {
+	for i, x := range xs {
+		l.E(i)
+		Yield(func() Iter[int] {
+			Yield(i)
+			Yield(x)
+			Yield(i + x)
+			return nil
+		}())
+	}
+	return nil
+}
+
+func SpawnString(l *mon.Log, s string) Iter[Iter[int]] {
+	for i, r := range s {
+		child := func() Iter[int] {
+			Yield(i)
+			Yield(int(r))
+			return nil
+		}
+		l.E(i)
+		Yield(child())
+	}
+	return nil
+}
+
+func SpawnChan(l *mon.Log, n int) Iter[Iter[int]] {
+	ch := make(chan int, n)
+	for i := 0; i < n; i++ {
+		ch <- i * 3
+	}
+	close(ch)
+	for v := range ch {
+		l.E(v)
+		Yield(func() Iter[int] {
+			Yield(v)
+			Yield(-v)
+			return nil
+		}())
+	}
+	return nil
+}
